@@ -8,6 +8,8 @@ Conventions: `c.v = {}` selects the repaired code (all `Variant` switches on).  
 `Win B x` = `B ≤ x < B + 2^31`: the timestamps/clock readings concerned lie in one window of less than 2^31 ms.
 -/
 import FlexModel.Geo.LocTLemmas
+import Generated.Mib
+import Generated.GnAddrKey
 
 namespace Props.C08
 open FlexModel.Geo
@@ -183,6 +185,57 @@ theorem present_until_expiry (c : Cfg) (hv : c.v = {}) (a : Addr) (B : Nat) (ops
   obtain ⟨e', r1, r2, _, r4, _⟩ := live_entry c hv a B ops t e _ hu hl hh hw (Nat.le_refl _) hops
   exact ⟨e', r1, r2, r4⟩
 
+/-- **all histories, lifetime counted from the NEWEST position vector**: `present_until_expiry` ties the limit to the
+PV the entry starts with; here the limit moves.  `ChainOK c a B t T ops` says: every operation happens not later than
+`lifetime` after the newest PV of `a` accepted BEFORE it (`T` = time of the PV the entry holds initially).  Then the
+entry of `a` survives the whole history, keeps its neighbour flag, and the PV it holds at the end is the newest
+accepted one (`latestTime`, ≥ the initial time) - so it remains for the configured lifetime after its LATEST position
+timestamp, however often it is refreshed. -/
+theorem present_until_latest_expiry (c : Cfg) (hv : c.v = {}) (a : Addr) (B : Nat) (ops : List Op) (t : Table)
+    (e : Entry) (hu : Uniq t) (hl : lookup t a = some e) (hh : e.hasPV = true) (hw : Win B e.pv.time)
+    (hops : ChainOK c a B t e.pv.time ops) :
+    ∃ e', lookup (ops.foldl (step c) t) a = some e' ∧ e'.hasPV = true ∧
+      (e.isNeighbour = true → e'.isNeighbour = true) ∧
+      e'.pv.time = latestTime c a t e.pv.time ops ∧ e.pv.time ≤ e'.pv.time := by
+  obtain ⟨e', r1, r2, r3, r4, _⟩ := live_chain c hv a B ops t e hu hl hh hw hops
+  exact ⟨e', r1, r2, r3, r4, by rw [r4]; exact latestTime_ge c a ops t e.pv.time⟩
+
+/-- the chained condition is implied by the fixed-limit one (so this theorem subsumes `present_until_expiry`) -/
+theorem chain_of_fixed_limit (c : Cfg) (a : Addr) (B : Nat) :
+    ∀ (ops : List Op) (t : Table) (T : Nat), (∀ op ∈ ops, OpOK a B (T + c.lifetimeMs) op) → ChainOK c a B t T ops := by
+  intro ops
+  induction ops with
+  | nil => intro _ _ _; trivial
+  | cons op r ih =>
+    intro t T h
+    refine ⟨h op (by simp), ?_⟩
+    have hge := accTime_ge c a t op T
+    apply ih
+    intro o ho
+    have := h o (by simp [ho])
+    cases o with
+    | pkt k b p sn now => exact ⟨this.1, by have := this.2.1; omega, this.2.2⟩
+    | refresh now => exact ⟨this.1, by have := this.2; omega⟩
+    | tick now => trivial
+    | ensure b => trivial
+
+/-- non-vacuity and the point of chaining: SHB stamped 100 000, refreshed by an SHB stamped 115 000; at 134 000 - past
+the FIRST stamp + 20 s, within the LATEST + 20 s - purges and foreign packets still leave the entry (and the neighbour
+flag) in place; at 135 001 a purge removes it -/
+example :
+    let c : Cfg := { self := 1, lifetimeMs := 20000, dplLen := 8 }
+    let t0 := run c [.pkt .shb 5 { time := 100000, lat := 1 } 0 100000]
+    let ops := [Op.pkt .shb 5 { time := 115000, lat := 2 } 0 115000, .refresh 134000, .pkt .tsb 6 { time := 134000 } 3 134000]
+    ChainOK c 5 0 t0 100000 ops ∧ ¬ (∀ op ∈ ops, OpOK 5 0 (100000 + c.lifetimeMs) op) ∧
+    latestTime c 5 t0 100000 ops = 115000 ∧
+    (lookup (ops.foldl (step c) t0) 5).map (fun e => (e.pv.time, e.isNeighbour)) = some (115000, true) ∧
+    lookup ((ops ++ [Op.refresh 135001]).foldl (step c) t0) 5 = none := by
+  refine ⟨?_, ?_, by decide, by decide, by decide⟩
+  · simp only [ChainOK, OpOK, Win, HALF]; decide
+  · intro h
+    have := h (Op.refresh 134000) (by simp)
+    simp [OpOK] at this
+
 /-- after any reception that reaches the location table (accepted or duplicate) at clock `now`, and after any explicit
 purge, the table holds no entry whose PV is older than the lifetime (and no placeholder without pending LS) -/
 theorem no_expired_entry_after_reception (c : Cfg) (hv : c.v = {}) (t : Table) (hu : Uniq t) (k : Kind) (a : Addr)
@@ -339,6 +392,54 @@ example :
       .pkt .guc 6 { time := 119000 } 1 119000, .pkt .tsb 5 { time := 100400, lat := 3 } 8 119500]
     (lookup t 5).map (fun e => (e.pv.time, e.pv.lat, e.isNeighbour)) = some (100500, 2, true) ∧ neighbours t = [5] := by
   decide
+
+/-! ## Well-formed configuration: duplicate packet list length, address keying (facts regenerated from the source) -/
+
+/-- the MIB default of `itsGnDPLLength` (regenerated from mib.py on every run) is a well-formed ring length; with
+`L = 0` Python's `deque(maxlen=0)` makes `check_duplicate_sn` raise IndexError on every multi-hop reception -/
+theorem dplLen_default_wf :
+    (0 < Generated.Mib.itsGnDPLLength) ∧ dplPushE 0 [] 7 = .error .indexError ∧
+    (dplPush 0 (dplPush 0 [] 1) 2).length = 2 := ⟨by decide, rfl, by decide⟩
+
+/-- for a well-formed length the model's ring IS the Python branch (no error), and it never exceeds the deque's
+`maxlen` -/
+theorem dpl_ring_wf (L : Nat) (h : 0 < L) (d : List Nat) (sn : Nat) (hd : d.length ≤ L) :
+    dplPushE L d sn = .ok (dplPush L d sn) ∧ (dplPush L d sn).length ≤ L :=
+  ⟨dplPushE_wf L h d sn, dplPush_length_le L h d sn hd⟩
+
+/-- all histories, well-formed configuration: no entry ever holds more than `itsGnDPLLength` sequence numbers
+(the model's list never outgrows the code's `deque(maxlen=L)`) -/
+theorem dpl_bounded (c : Cfg) (hv : c.v = {}) (hwf : c.WF) (ops : List Op) :
+    ∀ b e, lookup (run c ops) b = some e → e.dpl.length ≤ c.dplLen :=
+  run_invariant c (DplBounded c) ops (fun _ => True) (by intro b e h; simp [lookup] at h)
+    (fun t op hu hp _ => dplBounded_step c hv hwf t op hu hp) (fun _ _ => trivial)
+
+/-- non-vacuity: the default configuration is well-formed, and a ring of length 2 after three accepted numbers -/
+example : ({ self := 1, lifetimeMs := 20000, dplLen := Generated.Mib.itsGnDPLLength } : Cfg).WF ∧
+    (lookup (run { self := 1, lifetimeMs := 20000, dplLen := 2 }
+      [.pkt .tsb 5 { time := 1000 } 1 1000, .pkt .tsb 5 { time := 1001 } 2 1001, .pkt .gbc 5 { time := 1002 } 3 1002]) 5).map (·.dpl)
+      = some [2, 3] := by decide
+
+/-- `GNAddress` as a dict key (facts read from gn_address.py by `harness/gen_loct.py` on every run): frozen dataclass
+with the default `eq=True`, no explicit `__hash__`, hence a generated hash over ALL fields (m, st, mid), while the
+hand-written `__eq__` compares `mid` only; probed on the running code: the hash equals the field-tuple hash, the same
+address is found again, and addresses that differ in M or ST only - although `==` - occupy different slots.  This is
+what the model's table keyed by the full address, with DAD comparing `mid` only, assumes (up to 64-bit hash
+collisions). -/
+theorem gnaddress_keying_facts :
+    Generated.GnAddrKey.frozen = true ∧ Generated.GnAddrKey.dataclassEq = true ∧
+    Generated.GnAddrKey.explicitHash = false ∧ Generated.GnAddrKey.hashFields = ["m", "st", "mid"] ∧
+    Generated.GnAddrKey.eqAttrs = ["mid"] ∧ Generated.GnAddrKey.probeHashIsFieldTupleHash = true ∧
+    Generated.GnAddrKey.probeSameAddressSameSlot = true ∧ Generated.GnAddrKey.probeSameMidOtherFieldsDistinctSlots = true ∧
+    Generated.GnAddrKey.probeEqIsMidOnly = true := by decide
+
+/-- the model side of the same facts: two addresses with the same MID and different M/ST bits are different keys
+(an insertion under one leaves the other alone) and the same station for DAD -/
+theorem model_keys_by_full_address (t : Table) (a b : Addr) (e : Entry) (hne : a ≠ b) :
+    lookup (insert t a e) b = lookup t b ∧ lookup (insert t a e) a = some e :=
+  ⟨lookup_insert_ne t a b e (Ne.symm hne), lookup_insert_self t a e⟩
+
+example : mid (5 + 281474976710656) = mid 5 ∧ (5 + 281474976710656 : Nat) ≠ 5 := by decide
 
 /-! ## The defects repaired by fixes/C08-* (old behaviour as `Variant` switches) -/
 
